@@ -14,7 +14,7 @@ modes
                         (both through harness/c09_driver.py: main.py constructs these loaders and then raises
                         NotImplementedError)
   stub_*                the execution modes / variants of main.py that cannot simulate (synthetic, benchmark, replay/pylot,
-                        an Alibaba trace directory, Clockwork on an Alibaba trace, BranchPrediction): run once per tier so
+                        an Alibaba trace directory, Clockwork on an Alibaba trace): run once per tier so
                         that the evidence says how they end instead of not mentioning them
 """
 from __future__ import annotations
@@ -180,9 +180,9 @@ def gen_alibaba_file(r, k, fi, njobs, allow_short):
     return jobs, infos
 
 
-# BranchPrediction raises AttributeError in its first schedule() on any workload and Clockwork needs loading strategies
-# (the Alibaba work profiles have none): both are run once per tier as stub_* worlds, not sampled
-ALI_POLICIES = ["EDF", "FIFO", "LSF"]
+# Clockwork needs loading strategies (the Alibaba work profiles have none): run once per tier as a stub_* world, not sampled
+ALI_POLICIES = ["EDF", "FIFO", "LSF", "BranchPrediction"]
+BP_POLICIES = ["random", "worst", "best", "max"]
 ALI_RELEASE = ["fixed", "poisson", "gamma", "fixed", "fixed_gamma", "periodic", "poisson", "fixed"]
 ALI_VARIANCES = [(0, 20), (10, 50), (0, 300), (0, 0), (5, 100), (30, 60)]
 
@@ -262,6 +262,9 @@ def gen_alibaba_world(k):
         flags["scheduler_frequency"] = r.choice([5, 20])
     if policy == "EDF" and k % 8 == 3:
         flags["enforce_deadlines"] = True
+    if policy == "BranchPrediction":
+        flags["scheduler_policy"] = BP_POLICIES[(k // 4) % 4]
+        flags["branch_prediction_accuracy"] = [0.5, 0.8][(k // 16) % 2]
     feats = {"release": release, "files": nfiles, "jobs": len(infos),
              "joins": sum(i["joins"] for i in infos),
              "joins_listed_before_two_parents": sum(i["joins_listed_before_two_parents"] for i in infos),
